@@ -74,11 +74,11 @@ Definition insert_spec (l : live) (registered : bytes -> bool) (t : bytes) : ins
   | None => ISMalformed
   | Some new =>
     match filter (fun c => negb (registered c)) (flat_map (fun ri : route * info => route_constraints (fst ri)) new) with
-    | _ :: _ as cs => ISUnknown cs
+    | (_ :: _) as cs => ISUnknown cs
     | [] =>
       let rs := live_routes l in
       match filter_map (fun ri : route * info => owner rs (fst ri)) new with
-      | _ :: _ as cs => ISConflict (sort_set cs)
+      | (_ :: _) as cs => ISConflict (sort_set cs)
       | [] => ISOk
       end
     end
@@ -99,7 +99,7 @@ Definition delete_spec (l : live) (t : bytes) : delete_spec_res :=
     | None =>
       let rs := live_routes l in
       match filter_map (fun ri : route * info => owner rs (fst ri)) new with
-      | _ :: _ as cs => DSMismatch cs
+      | (_ :: _) as cs => DSMismatch cs
       | [] => DSNotFound
       end
     end
